@@ -219,6 +219,34 @@ def judge_c12(d):
     return None
 
 
+def judge_c15(d):
+    q, impl, model = d["query"], d["impl"], d["model"]
+    t = q.split()
+    if "panic" in impl:
+        return "SOCKS5 code panicked"
+    if t[1] == "dialogue":
+        try:
+            ib, io = [x.strip() for x in impl.split("|")]
+            mb, mo = [x.strip() for x in model.split("|")]
+        except ValueError:
+            return None
+        if ib != mb:
+            return "bytes sent to the SOCKS5 server differ from the well-formed RFC 1928/1929 messages (expected %s...)" % mb[:80]
+        succ = lambda o: o == "tcp" or o.startswith("udp")
+        if succ(io) != succ(mo):
+            return "dialogue outcome %s, expected %s (proceeds iff offered method selected and success reported)" % (io, mo)
+        if io.startswith("failure") != mo.startswith("failure") or (io.startswith("failure") and io != mo):
+            return "failure reply reported as %s, expected %s" % (io, mo)
+        return None
+    if t[1] == "fwd":
+        if (impl == "connected") != (model == "connected") or model in ("hostunreachable", "timeout") and impl != model:
+            return "forwarder mapped the SOCKS5 outcome to %s, expected %s" % (impl, model)
+        return None
+    if t[1] in ("udpwrap", "udpunwrap"):
+        return "RFC 1928 section 7 header handling differs: got %s expected %s" % (impl[:80], model[:80])
+    return None
+
+
 PROPS = {
     "C03": dict(
         suites=["c03"],
@@ -296,5 +324,21 @@ PROPS = {
                  "message is a ClientHello and for non-handshake records (a record starting with another handshake message is outside the model)",
                  "rustls handshake on the replayed bytes; QUIC: SSL_get_client_random of BoringSSL trusted"],
         assumptions=["near the 16 KiB prebuffer cap the loop's answer (absent vs found) depends on arrival timing; never a wrong value (loop_absent_never_wrong)"],
+    ),
+    "C15": dict(
+        suites=["c15"],
+        judge=judge_c15,
+        level="proof",
+        rule="dialogues: auth in {none, direct user/pass with lengths 0,1,254,255,256,300 and multi-byte UTF-8, make_auth / "
+             "make_extended_auth from SNI and Basic tokens (valid, non-base64, non-UTF-8, no colon, unpadded)} x requests {IPv4, IPv6, "
+             "domains of 0/255/256/300 bytes, UDP associate} x server scripts (every method byte class, auth version/status, reply "
+             "codes 0..10, address types incl. invalid, reserved byte, bad UTF-8 domain) truncated at a random byte in a third of the "
+             "cases and delivered whole / byte-wise / in 2-4 segments; every 8th case also through Socks5Forwarder against a loopback "
+             "TCP server; relayed datagrams through a real UDP association",
+        explanation="theorems selection_wellformed, userpass_wellformed_or_fails, request_wellformed_or_fails, extended_wellformed, "
+                    "split_first_colon, sent_is_encoded_messages, proceeds_only_if_offered_and_success, failure_reply_fails_request, "
+                    "reply_truncation_is_error, udp_unwrap_wrap, udp_unwrap_no_panic about TT/Model/Socks5.lean",
+        trusted=["base64 decoding (the decoded credential bytes are a model input)", "kernel connect() of the association socket"],
+        assumptions=["reads are exact-size pulls, so segmentation of the server's bytes cannot matter: exercised, not proved beyond the pull structure"],
     ),
 }
